@@ -287,12 +287,15 @@ class GlobalRngTouched(AssertionError):
 class SymRng:
     """Every draw is a fresh symbolic variable constrained only by the Generator contract."""
 
-    def __init__(self, sx, name='rng'):
+    def __init__(self, sx, name='rng', preset=None):
         self.sx, self.name, self.n = sx, name, 0
         self.log = []
+        self.preset = preset or {}  # draw index -> value: a concrete split of the first draws (partitioning of one obligation)
 
     def _fresh(self, lo, hi):
         v = self.sx.int(f'{self.name}{self.n}', lo, hi)
+        if self.n in self.preset:
+            self.sx.assume(v == self.preset[self.n])
         self.n += 1
         self.log.append(v)
         return v
